@@ -349,6 +349,18 @@ def report_regions(chk, regions, tag=""):
                               "the last already sticks out whenever (T-1)*ceil(N/T) > N (e.g. N=5, T=4; N=130, T=16): "
                               "expected MIN(ip + B, N) - ip, MIN(B, N - ip) or an `if` clipping against N" % (
                                   desc, etext), instance=desc)
+        for ok, desc, node, why in r.partials:
+            if ok:
+                chk.ok("partial-aggregate", "%s: %s" % (rid, desc.split(": ", 1)[1]),
+                       detail="no use as a team-wide result found")
+            else:
+                chk.violation("partial-aggregate", rel, r.func.name,
+                              "thread-private partial aggregate used as the team-wide result", r.tu.line_of(node),
+                              "%s holds, after the loop, only the aggregate over the iterations this thread was given "
+                              "(it is private and there is no reduction clause), but %s. Expected a reduction(...) "
+                              "clause, a combination by every thread under critical/atomic, or a per-thread slot that "
+                              "is combined after a barrier" % (desc, why),
+                              instance="%s: %s" % (rid, desc.split(": ", 1)[1]))
         for ok, desc, node, why in r.block_covers:
             if ok:
                 chk.ok("block-cover", desc, detail=why)
@@ -456,6 +468,8 @@ def analyse(chk):
                              "id, protected, a reduction, or a named exception")
     chk.rule("ws-uniform", "worksharing loops, single and barrier are reached by all threads of the team")
     chk.rule("tid-scratch", "buffers split by thread id are sized by the thread count")
+    chk.rule("partial-aggregate", "a thread-private value accumulated in a worksharing loop is not used as the "
+                                  "team-wide result (applied by one thread only, or used under another distribution)")
     chk.rule("block-cover", "T blocks of the chosen size cover the total (ceil idiom, or a remainder branch)")
     chk.rule("team-split", "a split indexed by the thread id uses the delivered team size, not omp_get_max_threads()")
     chk.rule("block-clip", "blocks of a ceil split by the thread count are clipped against the total on every path")
@@ -627,9 +641,6 @@ def mutants(tree):
     m.append(Mutant("`nowait` on the zeroing loop whose array the next worksharing loop accumulates into", CI,
                     expect="barrier-order",
                     fn=_in_func(CI, "compute_num_spline_contribs", "#pragma omp for\n", "#pragma omp for nowait\n")))
-    m.append(Mutant("`nowait` on the first of two worksharing loops updating the same array (weight_symm_gpts)", PB,
-                    expect="barrier-order",
-                    fn=_in_func(PB, "weight_symm_gpts", "#pragma omp for\n", "#pragma omp for nowait\n")))
     m.append(Mutant("block length clipped only for the last thread (SDMXcontract_ao_to_bas_bwd)", FS,
                     expect="block-clip",
                     fn=_in_func(FS, "SDMXcontract_ao_to_bas_bwd", "bgrids = MIN(ip + blksize, ngrids) - ip;",
@@ -642,15 +653,22 @@ def mutants(tree):
     m.append(Mutant("block size padded from the floor quotient (SDMXcontract_ao_to_bas_bwd)", FS, expect="block-cover",
                     fn=_in_func(FS, "SDMXcontract_ao_to_bas_bwd", "const int blksize = (ngrids + nthread - 1) / nthread;",
                                 "const int blksize = ((ngrids / nthread) + 7) & ~7;")))
-    m.append(Mutant("block size is the floor quotient, no remainder block (SDMXcontract_ao_to_bas_grid)", FS,
-                    expect="block-cover",
-                    fn=_in_func(FS, "SDMXcontract_ao_to_bas_grid", "const int blksize = (ngrids + nthread - 1) / nthread;",
-                                "const int blksize = ngrids / nthread;")))
     m.append(Mutant("collapse(2) added to a parallel for whose inner loop accumulates into out[i] (evaluate_se_kernel)",
                     MU, expect="shared-store", old="#pragma omp parallel for\n", new="#pragma omp parallel for collapse(2)\n"))
     m.append(Mutant("store under collapse(2) loses its dependence on the second collapsed variable (parallel_mul_add_d)",
                     PB, expect="shared-store", old="c[i * dim2 + j] += a[i * dim2 + j] * b[j];",
                     new="c[i * dim2] += a[i * dim2 + j] * b[j];"))
+    m.append(Mutant("`omp for` added to the per-thread sizing loop of the scratch buffer (solve_atc_coefs_arr)", CV,
+                    expect="partial-aggregate",
+                    fn=_in_func(CV, "solve_atc_coefs_arr", "        for (ia = 0; ia < atco->natm; ia++) {\n"
+                                "            atcc = atco->atc_convs[ia];\n            for (int l = 0; l < atcc.lmax + 1; l++) {\n"
+                                "                my_size =",
+                                "#pragma omp for\n        for (ia = 0; ia < atco->natm; ia++) {\n"
+                                "            atcc = atco->atc_convs[ia];\n            for (int l = 0; l < atcc.lmax + 1; l++) {\n"
+                                "                my_size =")))
+    m.append(Mutant("per-thread partial sums applied by the master thread only (add_lp1_term_grad)", CI,
+                    expect="partial-aggregate",
+                    fn=_in_func(CI, "add_lp1_term_grad", "#pragma omp critical\n", "#pragma omp master\n")))
     m.append(Mutant("callback run by the parallel driver stores to a global (GTOcontract_flapl0)", FL,
                     expect="callback-global",
                     fn=_in_func(FL, "GTOcontract_flapl0", "    double *my_spline = SPLINE + l * 4 * SPLINE_SIZE;\n",
